@@ -115,8 +115,8 @@ func vc09Describe(q *vc09Seq, variant string, got vc09res) string {
 	return fmt.Sprintf("original %s gives %s, the variant gives %s%s", strconv.Quote(q.text), q.base.String(), got.String(), opt)
 }
 
-// vc09WsFail classifies a failing whitespace filling: the first single position
-// whose change alone flips the outcome names the category.
+// vc09WsFail classifies a failing whitespace filling: the changes are undone one
+// by one as long as the outcome still differs; what remains names the category.
 func vc09WsFail(q *vc09Seq, f []string, got vc09res, a *vc09agg) {
 	n := len(q.toks)
 	canon := vc09SpaceFill(n)
@@ -125,43 +125,66 @@ func vc09WsFail(q *vc09Seq, f []string, got vc09res, a *vc09agg) {
 		a.fail("panic", text, vc09Describe(q, text, got))
 		return
 	}
+	f = append([]string{}, f...)
+	differs := func(g []string) (string, vc09res, bool) {
+		t := vc09fill(q.toks, g)
+		r := vc09parse(t, q.df)
+		return t, r, !vc09sameOutcome(q.base, r)
+	}
 	for p := 0; p <= n; p++ {
 		if f[p] == canon[p] {
 			continue
 		}
-		cands := []string{f[p]}
-		if vc09WsKind(f[p]) == "mixed" {
-			for _, c := range f[p] {
-				cands = append([]string{string(c)}, cands...)
-			}
+		old := f[p]
+		f[p] = canon[p]
+		if _, _, d := differs(f); d {
+			continue
 		}
-		for _, c := range cands {
-			g := append([]string{}, canon...)
-			g[p] = c
-			t2 := vc09fill(q.toks, g)
-			r2 := vc09parse(t2, q.df)
-			if vc09sameOutcome(q.base, r2) {
-				continue
+		f[p] = old
+		// a mixed filling: is one of its characters enough?
+		if vc09WsKind(old) == "mixed" {
+			for _, c := range old {
+				f[p] = string(c)
+				if _, _, d := differs(f); d {
+					break
+				}
+				f[p] = old
 			}
-			pos := ""
-			switch p {
-			case 0:
-				pos = "leading-"
-			case n:
-				pos = "trailing-"
-			}
-			cat := pos + "whitespace-" + vc09WsKind(c)
-			if c == "" {
-				cat += "-between-" + vc09TokClass(q.toks[p-1]) + "-and-" + vc09TokClass(q.toks[p])
-			}
-			a.fail(cat, t2, vc09Describe(q, t2, r2))
-			return
 		}
 	}
-	a.fail("whitespace-combination", text, vc09Describe(q, text, got))
+	kinds := map[string]bool{}
+	last := -1
+	count := 0
+	for p := 0; p <= n; p++ {
+		if f[p] != canon[p] {
+			kinds[vc09WsKind(f[p])] = true
+			last = p
+			count++
+		}
+	}
+	text, got, _ = differs(f)
+	cat := "whitespace-combination"
+	if len(kinds) == 1 {
+		for k := range kinds {
+			cat = "whitespace-" + k
+		}
+		if count == 1 {
+			switch last {
+			case 0:
+				cat = "leading-" + cat
+			case n:
+				cat = "trailing-" + cat
+			default:
+				if f[last] == "" {
+					cat += "-between-" + vc09TokClass(q.toks[last-1]) + "-and-" + vc09TokClass(q.toks[last])
+				}
+			}
+		}
+	}
+	a.fail(cat, text, vc09Describe(q, text, got))
 }
 
-// vc09CaseFail classifies a failing keyword-case variant.
+// vc09CaseFail classifies a failing keyword-case variant in the same way.
 func vc09CaseFail(q *vc09Seq, variant []vc09tok, got vc09res, a *vc09agg) {
 	canon := vc09SpaceFill(len(q.toks))
 	text := vc09fill(variant, canon)
@@ -169,20 +192,36 @@ func vc09CaseFail(q *vc09Seq, variant []vc09tok, got vc09res, a *vc09agg) {
 		a.fail("panic", text, vc09Describe(q, text, got))
 		return
 	}
-	for i := range variant {
-		if variant[i].s == q.toks[i].s {
+	v := append([]vc09tok{}, variant...)
+	differs := func() (string, vc09res, bool) {
+		t := vc09fill(v, canon)
+		r := vc09parse(t, q.df)
+		return t, r, !vc09sameOutcome(q.base, r)
+	}
+	for i := range v {
+		if v[i].s == q.toks[i].s {
 			continue
 		}
-		one := append([]vc09tok{}, q.toks...)
-		one[i] = variant[i]
-		t2 := vc09fill(one, canon)
-		r2 := vc09parse(t2, q.df)
-		if !vc09sameOutcome(q.base, r2) {
-			a.fail("keyword-case-"+strings.ToLower(q.toks[i].s), t2, vc09Describe(q, t2, r2))
-			return
+		old := v[i].s
+		v[i].s = q.toks[i].s
+		if _, _, d := differs(); !d {
+			v[i].s = old
 		}
 	}
-	a.fail("keyword-case-combination", text, vc09Describe(q, text, got))
+	kinds := map[string]bool{}
+	for i := range v {
+		if v[i].s != q.toks[i].s {
+			kinds[strings.ToLower(q.toks[i].s)] = true
+		}
+	}
+	text, got, _ = differs()
+	cat := "keyword-case-combination"
+	if len(kinds) == 1 {
+		for k := range kinds {
+			cat = "keyword-case-" + k
+		}
+	}
+	a.fail(cat, text, vc09Describe(q, text, got))
 }
 
 var vc09RandomWs = []string{" ", "\t", "\n", "\r", "  ", " \t", "\n\n", "\r\n", "\t ", " \n "}
@@ -791,6 +830,8 @@ func vc09opName(n *vc09node) string {
 	}
 	if (n.kind == vc09Boost || n.kind == vc09Fuzzy) && n.arg == "" {
 		s += "-default"
+	} else if (n.kind == vc09Boost || n.kind == vc09Fuzzy) && n.arg != "2" {
+		s += "-fractional"
 	}
 	return s
 }
@@ -1079,6 +1120,114 @@ func vc09generic(n *vc09node) *vc09node {
 	return rec(n)
 }
 
+func vc09isGeneric(n *vc09node) bool { return n.kind == vc09Leaf && n.name == "eq-generic" }
+
+// vc09replaceAt returns a copy of n in which the subtree at preorder index p is r.
+func vc09replaceAt(n *vc09node, p int, r *vc09node) *vc09node {
+	idx := 0
+	var rec func(x *vc09node) *vc09node
+	rec = func(x *vc09node) *vc09node {
+		i := idx
+		idx++
+		if i == p {
+			idx += x.nodes - 1
+			return r
+		}
+		if x.kind == vc09Leaf {
+			return x
+		}
+		c := *x
+		c.status = nil
+		c.l = rec(x.l)
+		c.depth, c.nodes = c.l.depth+1, c.l.nodes+1
+		if x.r != nil {
+			c.r = rec(x.r)
+			c.nodes += c.r.nodes
+			if c.r.depth+1 > c.depth {
+				c.depth = c.r.depth + 1
+			}
+		}
+		return &c
+	}
+	return rec(n)
+}
+
+// vc09shrink reduces a failing tree to a locally minimal failing one: subtrees are
+// replaced by plain field:value terms or by one of their own operands, boost
+// powers and fuzzy distances are normalised to 2, as long as fails() stays true.
+func vc09shrink(n *vc09node, fails func(*vc09node) bool) *vc09node {
+	g := vc09genericLeaves()
+	for step := 0; step < 300; step++ {
+		type pos struct {
+			idx int
+			x   *vc09node
+		}
+		var list []pos
+		vc09walk(n, func(idx int, x, _ *vc09node, _ int) { list = append(list, pos{idx, x}) })
+		progressed := false
+	search:
+		for _, p := range list {
+			var cands []*vc09node
+			if p.x.kind != vc09Leaf {
+				cands = append(cands, p.x.l)
+				if p.x.r != nil {
+					cands = append(cands, p.x.r)
+				}
+			}
+			if !vc09isGeneric(p.x) {
+				cands = append(cands, g[p.idx%len(g)])
+			}
+			if (p.x.kind == vc09Boost || p.x.kind == vc09Fuzzy) && p.x.arg != "2" {
+				c := *p.x
+				c.arg, c.status = "2", nil
+				cands = append(cands, &c)
+			}
+			for _, c := range cands {
+				if t := vc09replaceAt(n, p.idx, c); fails(t) {
+					n, progressed = t, true
+					break search
+				}
+			}
+		}
+		if !progressed {
+			break
+		}
+	}
+	return n
+}
+
+// vc09treeName renders a (small) tree as a category tag: leaves that were
+// replaceable by a plain term are "term", operators are named, operands follow "of".
+func vc09treeName(n *vc09node) string {
+	switch {
+	case n.kind == vc09Leaf:
+		if vc09isGeneric(n) {
+			return "term"
+		}
+		return n.name
+	case n.r == nil:
+		return vc09opName(n) + "-of-" + vc09treeName(n.l)
+	}
+	return vc09opName(n) + "-of-" + vc09treeName(n.l) + "-and-" + vc09treeName(n.r)
+}
+
+// vc09shape is the two-level operator skeleton with leaf forms (cache key for classifications).
+func vc09shape(n *vc09node) string {
+	one := func(c *vc09node) string {
+		if c == nil {
+			return ""
+		}
+		if c.kind == vc09Leaf {
+			return c.form
+		}
+		return vc09opName(c)
+	}
+	if n.kind == vc09Leaf {
+		return n.name
+	}
+	return vc09opName(n) + "(" + one(n.l) + "," + one(n.r) + ")"
+}
+
 type vc09unop struct {
 	kind int
 	arg  string
@@ -1355,8 +1504,11 @@ func vc09msgLess(a, b vc09msg) bool {
 }
 
 func (c *vc09cat) add(m vc09msg) {
-	for _, o := range c.best {
-		if o == m {
+	for i, o := range c.best {
+		if o.input == m.input { // one message per input
+			if vc09msgLess(m, o) {
+				c.best[i] = m
+			}
 			return
 		}
 	}
@@ -1444,11 +1596,12 @@ func vc09getenv() *vc09env {
 	// collector runs continuously and the 16 workers mostly wait for it
 	e.oldGC = debug.SetGCPercent(-1)
 	e.oldLimit = debug.SetMemoryLimit(3 << 30)
-	// safety net only: the domains are sized to finish well before it
+	// safety net only (go test itself gives up after 10 minutes): the domains are sized
+	// for about 60 CPU-seconds (quick) and 25 CPU-minutes (thorough)
 	if e.thorough {
-		e.deadline = time.Now().Add(225 * time.Second)
+		e.deadline = time.Now().Add(8 * time.Minute)
 	} else {
-		e.deadline = time.Now().Add(18 * time.Second)
+		e.deadline = time.Now().Add(90 * time.Second)
 	}
 	return e
 }
